@@ -2,6 +2,8 @@
 import ast
 import copy
 import itertools
+import os
+import re
 import shutil
 import time
 
@@ -61,6 +63,7 @@ Definition judge (k : cfg * hlist * list read * outcome) : list (list nat) :=
     if ok then [] else blamed_rules c l r ].
 """
 
+INFRA = re.compile(r"^(ModuleNotFoundError|ImportError): .*(whatshap|\.so\b|ELF)", re.M)
 SIG = {1: "split:early-exit-duplicate-names", 2: "split:list-duplicate-name-assert",
        4: "split:histogram-duplicate-rows", 8: "split:fastq-empty-read-rewritten"}
 
@@ -72,6 +75,22 @@ def evaluate(ctx, cases, label, shard=150, batch=False):
     root = workdir(ctx, "C14-" + label)
     t0 = time.time()
     obs = (sc.run_cases_batch if batch else sc.run_cases)(ctx, cases, root)
+    # The scratch build is shared with the other checks and may be rebuilt in place while we import from it:
+    # an import failure of a whatshap module is an infrastructure failure, not an observation -> wait, re-run.
+    for attempt in range(4):
+        broken = [i for i, ob in enumerate(obs) if ob["rc"] != 0 and INFRA.search(ob.get("stderr", ""))]
+        if not broken:
+            break
+        ctx.tally("infrastructure.rerun_after_import_failure", len(broken))
+        time.sleep(20 * (attempt + 1))
+        from .. import build
+        build.build_impl(verbose=False)
+        sub = os.path.join(root, f"retry{attempt}")
+        again = sc.run_cases(ctx, [cases[i] for i in broken], sub)
+        for i, ob in zip(broken, again):
+            obs[i] = ob
+    else:
+        raise RuntimeError("scratch build unusable (import errors persist): " + obs[broken[0]].get("stderr", "")[-500:])
     shutil.rmtree(root, ignore_errors=True)
     ctx.extra["cli_seconds"] = round(ctx.extra.get("cli_seconds", 0) + time.time() - t0, 1)
     t0 = time.time()
@@ -289,7 +308,7 @@ def exhaustive_cases(maxlen):
 def run(ctx):
     rng = ctx.rng
     # (a) every option combination with random data
-    reps = ctx.n(1, 12)
+    reps = ctx.n(1, 10)
     cases = []
     for _ in range(reps):
         for combo in range(192):
@@ -310,7 +329,7 @@ def run(ctx):
     by_sig, l2_bad, matchsets = process(ctx, res, "random")
     # more volume of (a), (c) and repeated list names through the in-process entry point
     more = []
-    for _ in range(ctx.n(2, 30)):
+    for _ in range(ctx.n(2, 20)):
         for combo in range(192):
             more.append(sc.gen_case(rng, combo=combo, allow_empty_fastq=rng.random() < 0.1,
                                     dup_list_names=True if rng.random() < 0.15 else None))
